@@ -2,6 +2,8 @@ import UncModel.Gen.ExitSites
 import UncModel.Gen.TokLoops
 import UncModel.TokCtx
 import UncModel.Lemmas.WidthLemmas
+import UncModel.ChunkWalk
+import UncModel.Gen.ChunkWalks
 /-!
 # C06 — clean termination: the part an executable model can carry
 
@@ -187,5 +189,51 @@ theorem C06_width_loop_old_diverges (fuel k : Nat) :
 example : Width.loop Width.passFixed (fun _ _ => [[0]]) 2 0 [true] = some (1, [true]) := by decide
 example : Width.loop Width.passFixed (fun k _ => [[2 * k]]) 4 0 [false, true, false] = some (3, [true, true, true]) := by decide
 example : Width.loop Width.passFixed (fun _ _ => [[0, 2], [0]]) 4 0 [false, true, false] = some (2, [true, true, true]) := by decide
+
+/-! ### walks along the chunk list end at the null chunk -/
+
+/-- a walk whose condition is false on the null chunk runs its body at most once per remaining chunk, on every chunk list -/
+theorem C06_walk_terminates {α : Type} (cond : Option α → Bool) (h0 : cond none = false) (rest : List α) :
+    ∃ n, Walk.steps cond (rest.length + 1) rest = some n ∧ n ≤ rest.length := by
+  induction rest with
+  | nil => exact ⟨0, by simp [Walk.steps, h0], Nat.le_refl _⟩
+  | cons c rest ih =>
+    obtain ⟨n, hn, hle⟩ := ih
+    by_cases hc : cond (some c) = true
+    · refine ⟨n + 1, ?_, by simp; omega⟩
+      simp only [List.length_cons, Walk.steps, hc, if_true]
+      rw [hn]; rfl
+    · exact ⟨0, by simp [Walk.steps, hc], by simp⟩
+
+/-- a walk whose condition holds on the null chunk (only negative tests such as `pc->IsNot(CT_SEMICOLON)`) and on every chunk that is
+    left never ends: whatever the fuel -/
+theorem C06_walk_diverges {α : Type} (cond : Option α → Bool) (h0 : cond none = true) (rest : List α)
+    (hr : ∀ c ∈ rest, cond (some c) = true) (fuel : Nat) : Walk.steps cond fuel rest = none := by
+  induction fuel generalizing rest with
+  | zero => rfl
+  | succ f ih =>
+    cases rest with
+    | nil => simp [Walk.steps, h0, ih [] (by simp)]
+    | cons c rest =>
+      have hc : cond (some c) = true := hr c (by simp)
+      simp [Walk.steps, hc, ih rest (fun x hx => hr x (by simp [hx]))]
+
+def chunkWalkOk (w : String × String × String × String × String) : Bool :=
+  w.2.2.2.2 == "guarded" || w.2.2.2.2 == "body-exit" || w.2.2.2.2 == "counted" || w.2.2.2.2 == "until-chunk" || w.2.2.2.2 == "cond-free" ||
+  Gen.chunkWalkExceptions.any fun e => e.1 == w.1 && e.2.1 == w.2.1 && e.2.2.1 == w.2.2.1 && e.2.2.2.1 == w.2.2.2.1
+
+set_option maxRecDepth 200000 in
+/-- every loop of src/**/*.cpp that advances a chunk variable (table regenerated on every run) has a condition with a conjunct that
+    is false on the null chunk (`guarded`: the hypothesis of `C06_walk_terminates`), leaves the loop when it meets the null chunk
+    (`body-exit`), is bounded by a counter, ends at another chunk that lies ahead (`until-chunk`), does not depend on the walk variable
+    (`cond-free`: an enclosing or other bound), or is one of the committed, individually justified exceptions -/
+theorem C06_chunk_walks_guarded : Gen.chunkWalks.all chunkWalkOk = true := by decide +kernel
+
+set_option maxRecDepth 200000 in
+example : Gen.chunkWalks.length > 300 := by decide +kernel
+
+/-- before the fixes 6b58563 … 703c4db: `while (pc->IsNot(CT_SEMICOLON)) pc = pc->GetNext();` on a rest without a semicolon -/
+example : Walk.steps (fun c : Option Nat => c != some 59) 40 [1, 2, 3] = none := by decide
+example : Walk.steps (fun c : Option Nat => c != none && c != some 59) 5 [1, 2, 3] = some 3 := by decide
 
 end Unc
